@@ -344,6 +344,58 @@ func corpus() []prog {
 		g.Link(n2, e2, nil)
 	}, nil, false)
 	ps[len(ps)-1].throwAll = true
+	for _, target := range []drv.Kind{drv.Task, drv.End, drv.XOR, drv.AND, drv.OR, drv.EBG, drv.Sub, drv.Catch, drv.Throw} {
+		target := target
+		add("four-late-tokens-"+string(target), func(g *drv.Graph) {
+			// four tokens reach one node over a single sequence flow (its inbox holds three
+			// messages) while the cancel arrives
+			s, f, m, e := g.Add(drv.Start, "start"), g.Add(drv.AND, "F"), g.Add(drv.XOR, "M"), g.Add(drv.End, "end")
+			g.Link(s, f, nil)
+			for i := 1; i <= 4; i++ {
+				a := g.Add(drv.Task, fmt.Sprintf("a%d", i))
+				g.Link(f, a, nil)
+				g.Link(a, m, nil)
+			}
+			switch target {
+			case drv.End:
+				g.Link(m, e, nil)
+			case drv.Task:
+				n := g.Add(drv.Task, "n1")
+				g.Link(m, n, nil)
+				g.Link(n, e, nil)
+			case drv.EBG:
+				x := g.Add(drv.EBG, "X")
+				g.Link(m, x, nil)
+				for _, r := range []string{"A", "B"} {
+					c, ex := catch(g, "c"+r, drv.EventDef{Kind: "signal", Ref: r}), g.Add(drv.End, "end"+r)
+					g.Link(x, c, nil)
+					g.Link(c, ex, nil)
+				}
+			case drv.Sub:
+				sp := g.AddSub("sp")
+				is, in, ie := sp.Inner.Add(drv.Start, "sp_start"), sp.Inner.Add(drv.Task, "n1"), sp.Inner.Add(drv.End, "sp_end")
+				sp.Inner.Link(is, in, nil)
+				sp.Inner.Link(in, ie, nil)
+				g.Link(m, sp, nil)
+				g.Link(sp, e, nil)
+			case drv.Catch:
+				c := catch(g, "cA", drv.EventDef{Kind: "signal", Ref: "A"})
+				g.Link(m, c, nil)
+				g.Link(c, e, nil)
+			case drv.Throw:
+				t, n := g.Add(drv.Throw, "thr"), g.Add(drv.Task, "n1")
+				t.Defs = []drv.EventDef{{Kind: "signal", Ref: "T"}}
+				g.Link(m, t, nil)
+				g.Link(t, n, nil)
+				g.Link(n, e, nil)
+			default:
+				x, n := g.Add(target, "X"), g.Add(drv.Task, "n1")
+				g.Link(m, x, nil)
+				g.Link(x, n, nil)
+				g.Link(n, e, nil)
+			}
+		}, nil, false)
+	}
 	// the programs with a node that takes events, once more with six signals (of the references
 	// the corpus uses) handed to the instance right after the cancel is issued
 	for _, q := range ps {
